@@ -177,9 +177,10 @@ def parseInputObjectTypeDefinition (fl : Flags) (fuel : Nat) : P Definition := d
 
 /-- `parse_directive_location` -/
 def parseDirectiveLocation (fl : Flags) : P Name := do
+  let start ← peek
   let name ← parseName fl
   if name.value ∈ Generated.ParserTables.directiveLocations then pure name
-  else fail "Unexpected Name"
+  else failTokAt start "Unexpected Name"
 
 /-- `parse_directive_locations` -/
 def parseDirectiveLocations (fl : Flags) (fuel : Nat) : P (List Name) :=
@@ -210,8 +211,8 @@ def parseTypeSystemDefinition (fl : Flags) (fuel : Nat) : P Definition := do
     else if keyword.value = K.enum_ then parseEnumTypeDefinition fl fuel
     else if keyword.value = K.input then parseInputObjectTypeDefinition fl fuel
     else if keyword.value = K.directive then parseDirectiveDefinition fl fuel
-    else fail "Unexpected token"
-  else fail "Unexpected token"
+    else failAt keyword "Unexpected token"
+  else failAt keyword "Unexpected token"
 
 /-! ### extensions -/
 
@@ -234,7 +235,7 @@ def parseScalarTypeExtension (fl : Flags) (fuel : Nat) : P Definition := do
   let _ ← expectKeyword K.scalar
   let name ← parseName fl
   let directives ← parseDirectives fl fuel true
-  if directives.isEmpty then fail "Unexpected token"
+  if directives.isEmpty then failAt start "Unexpected token"
   else pure (.scalarTypeExtension name directives (← mkLoc fl start))
 
 /-- `parse_object_type_extension` -/
@@ -290,7 +291,7 @@ def parseInputObjectTypeExtension (fl : Flags) (fuel : Nat) : P Definition := do
   let name ← parseName fl
   let directives ← parseDirectives fl fuel true
   let fields ← parseInputFieldsDefinition fl fuel
-  if directives.isEmpty ∧ fields.isEmpty then fail "Unexpected token"
+  if directives.isEmpty ∧ fields.isEmpty then failTokAt start "Unexpected token"
   else pure (.inputObjectTypeExtension name directives fields (← mkLoc fl start))
 
 /-- `parse_type_system_extension`: dispatch on `peek(2)` -/
@@ -304,7 +305,7 @@ def parseTypeSystemExtension (fl : Flags) (fuel : Nat) : P Definition := do
     else if keyword.value = K.union then parseUnionTypeExtension fl fuel
     else if keyword.value = K.enum_ then parseEnumTypeExtension fl fuel
     else if keyword.value = K.input then parseInputObjectTypeExtension fl fuel
-    else fail "Unexpected token"
-  else fail "Unexpected token"
+    else failAt keyword "Unexpected token"
+  else failAt keyword "Unexpected token"
 
 end PyGql.Parse
